@@ -28,8 +28,30 @@ func verifOpts(kind int) *BroadcastOptions {
 		o.Rooms = mapset.NewSet[Room]("r1")
 	case 3:
 		o.Except = mapset.NewSet[Room]("r0")
+	case 4:
+		o.Rooms = mapset.NewSet[Room]("r0")
+		o.Except = mapset.NewSet[Room]("r1")
+	case 5:
+		o.Rooms = mapset.NewSet[Room]("r1")
+		o.Except = mapset.NewSet[Room]("r0")
 	}
 	return o
+}
+
+// verifAddressed is the reference: is a broadcast of the given kind addressed to a session in rooms {sid1, r0} plus r1
+// iff inR1? (T empty or session in some room of T) and session in no room of E.
+func verifAddressed(kind int, inR1 bool) bool {
+	switch kind {
+	case 0, 1:
+		return true
+	case 2:
+		return inR1
+	case 3:
+		return false
+	case 4:
+		return !inR1
+	}
+	return false // kind 5: except r0
 }
 
 // verifSteps is a symbolic number of clock units in [0,4] (NOT forked: the solver ranges over it).
@@ -58,7 +80,15 @@ func verifH_C08_log() {
 		period = 2 * time.Millisecond
 	}
 	a := newSessionAwareAdapter(inMem, verifWindow, period)
+	// the session's rooms: {sid1, r0}, optionally r1 as well, persisted in either order
 	sessRooms := []Room{"sid1", "r0"}
+	inR1 := false
+	switch verifChoose(0, 2) {
+	case 1:
+		sessRooms, inR1 = []Room{"sid1", "r0", "r1"}, true
+	case 2:
+		sessRooms, inR1 = []Room{"sid1", "r1", "r0"}, true
+	}
 	h := verifChoose(1, H)
 	d := verifChoose(1, h)
 	var ghost []verifGhost
@@ -68,11 +98,11 @@ func verifH_C08_log() {
 	hdr := &parser.PacketHeader{Type: parser.PacketTypeEvent, Namespace: "/"}
 	for i := 0; i < h; i++ {
 		verifAdvance(verifSteps())
-		kind := verifChoose(0, 3)
+		kind := verifChoose(0, 5)
 		before := len(a.packets)
 		a.Broadcast(hdr, []any{"ev"}, verifOpts(kind))
 		verifAssert(len(a.packets) == before+1, "an event broadcast without ack is logged")
-		g := verifGhost{id: a.packets[len(a.packets)-1].ID, addressed: kind == 0 || kind == 1, at: time.Now()}
+		g := verifGhost{id: a.packets[len(a.packets)-1].ID, addressed: verifAddressed(kind, inR1), at: time.Now()}
 		ghost = append(ghost, g)
 		if i < d && g.addressed {
 			offset, offsetIdx = g.id, i
@@ -100,7 +130,7 @@ func verifH_C08_log() {
 		verifAssert(!ok, "a session older than the window is not restored")
 	}
 	if ok {
-		verifAssert(sess.SID == "sid1" && sess.PID == "pid1" && len(sess.Rooms) == 2 && sess.Rooms[0] == "sid1" && sess.Rooms[1] == "r0", "restored session has the persisted id and rooms")
+		verifAssert(sess.SID == "sid1" && sess.PID == "pid1" && len(sess.Rooms) == len(sessRooms) && sess.Rooms[0] == "sid1" && sess.Rooms[1] == sessRooms[1], "restored session has the persisted id and rooms")
 		// no gap: exactly the addressed packets after the offset, in order
 		k := 0
 		for i := offsetIdx + 1; i < len(ghost); i++ {
